@@ -337,6 +337,22 @@ func c04NearMisses(thorough bool) []strEnum {
 		}
 	}
 	out = append(out, listEnum("action-errors-with-followers", broken))
+	// two (and three) unbuildable items in one input, each in every position relative to the other: an
+	// accessor / operand / argument of the first contains the second (stand-in nodes must not be shared)
+	unb := []string{"1e400", ".1e999", "1" + strings.Repeat("0", 400), `($ like_regex "(")`, `($ like_regex "a" flag "z")`, "$.a.decimal(1,2,3)", "$.**{-1}", "1e400.abs()", "(-1e400)"}
+	shapes := []string{"%s[%s]", "%s ? (@ > %s)", "%s ? (@ == %s).a", "%s + %s", "%s == %s", "%s[%s to %s]", "%s[0, %s]", "%s.a[%s]", "$[%s] ? (@ == %s)", "exists(%s ? (%s == 1))", "(%s) && (%s == 1)",
+		"-%s[%s]", "%s ? (%s like_regex \"a\")", "$ ? (@ == %s && @ < %s)", "%s ? (@ > %s) ? (@ < %s)", "$.a.decimal(%s, %s)", "$[%s, %s, %s]"}
+	var multi []string
+	for _, a := range unb {
+		for _, b := range unb {
+			for _, sh := range shapes {
+				t := strings.Replace(strings.Replace(sh, "%s", a, 1), "%s", b, 1)
+				t = strings.ReplaceAll(t, "%s", a)
+				multi = append(multi, t, "strict "+t, "("+t+")")
+			}
+		}
+	}
+	out = append(out, listEnum("several-unbuildable-items", multi))
 	// numeric literals at and beyond the int64 / float64 limits, with signs and parentheses
 	lits := []string{"9223372036854775807", "9223372036854775808", "9223372036854775809", "18446744073709551616", "99999999999999999999999999",
 		"0x7FFFFFFFFFFFFFFF", "0x8000000000000000", "0xFFFFFFFFFFFFFFFFFF", "0o777777777777777777777", "0o1000000000000000000000", "0b1" + strings.Repeat("0", 63), "0b1" + strings.Repeat("0", 64),
